@@ -165,6 +165,9 @@ end
 /-- A binary64 value (units of 2^-1074) lies in [0, 1]. -/
 def inUnit (v : Int) : Bool := decide (0 ≤ v) && decide (v ≤ F64.one)
 
+/-- Spec: every held value lies in [0, 1]. -/
+def allInUnit {κ : Type} (m : List (κ × Int)) : Bool := m.all fun kv => inUnit kv.2
+
 /-! ### The arithmetic expressions as the extractor reads them from the source (post-order /
 reverse Polish, see extract/c19.go): 0 = literal 1, 1 = pOld, 2 = the configuration constant,
 3 = peerPred, 4 = otherPeerPred, 10 = +, 11 = −, 12 = ·. -/
